@@ -5,7 +5,7 @@
    chosen by the harness RELATIVE to the scale of the triangles (1e-9 * side, never an absolute 1e-9), so that sets of
    triangles of side 2^-40 are compared as sharply as sets of side 1.  No proofs here. *)
 From Coq Require Import ZArith List Bool QArith Qabs.
-From PAV Require Import Base.Res Base.Check Base.NumOps Model.C20.
+From PAV Require Import Base.Res Base.Check Base.NumOps Model.C20 Model.C20Rewire.
 Import ListNotations.
 
 Definition qpt : Type := (Q * Q)%type.
@@ -30,6 +30,7 @@ Definition I3 (a b c : Z) : idx3 := (Z.to_nat a, Z.to_nat b, Z.to_nat c).
 Definition Zp (a b : Z) : zpt := (a, b).
 Definition NL (l : list Z) : list nat := map Z.to_nat l.
 Definition Ed (j : Z) (p : qpt) : nat * qpt := (Z.to_nat j, p).
+Definition Rw (j : Z) (r : idx3) : nat * idx3 := (Z.to_nat j, r).
 
 (* tolerances of a case: lengths / coordinates, and squared lengths / areas of ONE triangle *)
 Definition tols : Type := (Q * Q)%type.
@@ -83,6 +84,8 @@ Inductive case :=
 | KAArea (tl : tols) (ex : bool) (A : qatri) (out : Q)
   (* the user wrote A.vertices[j] = p (in place) for each (j, p) of [es], then read A.triangles *)
 | KAEdits (A : qatri) (es : list (nat * qpt)) (out : list qtri)
+  (* the user wrote A.indices[r] = row (in place) for each (r, row) of [es], then read A.triangles *)
+| KARewires (A : qatri) (es : list (nat * idx3)) (out : list qtri)
 | KAUp (tl : tols) (ex : bool) (A out : qatri)
 | KANbr (tl : tols) (ex : bool) (A out : qatri)
 | KAFor (tl : tols) (ex : bool) (A : qatri) (sel : list nat) (out : qatri)
@@ -106,6 +109,7 @@ Definition agree (k : case) : bool :=
   | KATrisRes A out => res_eqb (list_eqb (tri_cmp exact)) (@a_triangles_checked QOps A) out
   | KAArea tl ex A out => qcmp_sq (ex, tl) (length (fst A)) (@a_area QOps A) out
   | KAEdits A es out => list_eqb (tri_cmp exact) (qtris (@a_edits QOps A es)) out
+  | KARewires A es out => list_eqb (tri_cmp exact) (qtris (@a_rewires QOps A es)) out
   | KAUp tl ex A out =>
       if ex then atri_eqb (@a_up_sample QOps A) out
       else list_eqb (tri_cmp (apx tl)) (qtris (@a_up_sample QOps A)) (qtris out)
@@ -197,6 +201,13 @@ Definition spec_slot (vs : list qpt) (es : list (nat * qpt)) (i : nat) : qpt :=
   | None => nth i vs (0, 0)
   end.
 
+(* the row position i holds after the writes: the last row written to it, else the original row *)
+Definition spec_row (rows : list idx3) (es : list (nat * idx3)) (i : nat) : idx3 :=
+  match find (fun e : nat * idx3 => Nat.eqb (fst e) i) (rev es) with
+  | Some e => snd e
+  | None => nth i rows (0, 0, 0)%nat
+  end.
+
 Definition spec_ok (k : case) : bool :=
   match k with
   | KATris A out => negb (idx_ok A) ||
@@ -212,6 +223,14 @@ Definition spec_ok (k : case) : bool :=
   | KAEdits A es out => negb (idx_ok A && forallb (fun e : nat * qpt => Nat.ltb (fst e) (length (snd A))) es) ||
       list_eqb (tri_cmp exact)
         (map (fun r => (spec_slot (snd A) es (i0 r), spec_slot (snd A) es (i1 r), spec_slot (snd A) es (i2 r))) (fst A)) out
+  | KARewires A es out =>
+      let n := length (snd A) in
+      let okrow := fun r : idx3 => Nat.ltb (i0 r) n && Nat.ltb (i1 r) n && Nat.ltb (i2 r) n in
+      negb (idx_ok A && forallb (fun e : nat * idx3 => Nat.ltb (fst e) (length (fst A)) && okrow (snd e)) es) ||
+      list_eqb (tri_cmp exact)
+        (map (fun i => let r := spec_row (fst A) es i in
+                       (nth (i0 r) (snd A) (0, 0), nth (i1 r) (snd A) (0, 0), nth (i2 r) (snd A) (0, 0)))
+             (seq 0 (length (fst A)))) out
   | KAUp tl ex A out => negb (idx_ok A) || (idx_ok out && spec_up (ex, tl) (qtris A) (qtris out))
   | KANbr tl ex A out => negb (idx_ok A) || (idx_ok out && spec_nbr (ex, tl) (qtris A) (qtris out))
   | KAFor tl ex A sel out => negb (idx_ok A) || (idx_ok out && spec_select (ex, tl) (qtris A) sel (qtris out))
